@@ -19,6 +19,8 @@ overloads are selected by the argument's type.  Required shape:
     self.<A>         built in __init__ as  re.compile(x)  [or re.compile(x).match, see "apply"]  for *every* x of the configured patterns
                      (comprehension / tuple(map(...)) / append loop), no flags, no filter
 
+One regular expression compiled from `"|".join(<configured patterns>)` (with or without wrapping of the alternatives) is a VIOLATION: inside
+one alternation the patterns share group numbers, group names and inline flags (patterns ('(a)b', r'(x)\1'), path 'xx').
 Anything else is reported: a different match kind (not start-anchored / full match), another subject (`obj.name`, derived strings),
 skipped patterns, flags -> VIOLATION naming the construct; a shape the term language cannot express -> undecided.
 """
@@ -672,6 +674,56 @@ def _via_helper(fi: FuncInfo, v: ast.expr, store: ast.AST):
     return out if h.module is fi.module else None
 
 
+def _joined_alternation(repo: Repo, ci: ClassInfo, box: str) -> ast.Call | None:
+    """The `"|".join(<configured patterns>)` call whose result is compiled into the single pattern kept in `box` (`self._x`), if that is
+    how `box` is built: the separator is a constant containing `|`, the joined elements come from the constructor's parameter, and the
+    joined text reaches a `re.compile(...)` that is stored in `box` (directly, through locals, a conditional expression, an f-string
+    or a concatenation that wraps it)."""
+    init = repo.lookup_method(ci, "__init__")
+    if init is None or len(init.param_names) < 2:
+        return None
+    cfg = init.param_names[1]
+    funcs = [init]
+    try:
+        T = types_of(repo)
+        for c in calls_in(init.node):
+            cs, how = T.callees(init, c, byname_fallback=False)
+            funcs += [h for h in cs if how == "repo" and h not in funcs and h.name != "__init__"]
+    except Exception:  # noqa: BLE001
+        pass
+    for f in funcs:
+        binds: dict[str, list[ast.expr]] = {}
+        for n in own_nodes(f.node):
+            if isinstance(n, ast.Assign) and len(n.targets) == 1 and isinstance(n.targets[0], ast.Name):
+                binds.setdefault(n.targets[0].id, []).append(n.value)
+            elif isinstance(n, ast.AnnAssign) and isinstance(n.target, ast.Name) and n.value is not None:
+                binds.setdefault(n.target.id, []).append(n.value)
+
+        def closure(e: ast.AST, depth: int = 0) -> list[ast.AST]:
+            """All nodes of `e`, locals replaced by what they were assigned."""
+            out = []
+            for x in ast.walk(e):
+                out.append(x)
+                if isinstance(x, ast.Name) and isinstance(x.ctx, ast.Load) and depth < 4:
+                    for v in binds.get(x.id, []):
+                        out += closure(v, depth + 1)
+            return out
+
+        stores = [n for n in own_nodes(f.node) if isinstance(n, (ast.Assign, ast.AnnAssign)) and n.value is not None and any(norm(t) == box for t in (n.targets if isinstance(n, ast.Assign) else [n.target]))]
+        if f is not init:
+            # a helper that returns the compiled pattern
+            stores = [n for n in own_nodes(f.node) if isinstance(n, ast.Return) and n.value is not None]
+        for st in stores:
+            for c in closure(st.value):
+                if isinstance(c, ast.Call) and isinstance(c.func, (ast.Name, ast.Attribute)) and repo.resolve_name(f.module, c.func) == "re.compile" and c.args:
+                    for j in closure(c.args[0]):
+                        if isinstance(j, ast.Call) and isinstance(j.func, ast.Attribute) and j.func.attr == "join" and isinstance(j.func.value, ast.Constant) and isinstance(j.func.value.value, str) and "|" in j.func.value.value and len(j.args) == 1:
+                            names = {x.id for x in closure(j.args[0]) if isinstance(x, ast.Name)}
+                            if cfg in names or (f is not init and set(f.param_names) & names):
+                                return j
+    return None
+
+
 def _empty(e: ast.expr) -> bool:
     return (isinstance(e, (ast.Tuple, ast.List)) and not e.elts) or (isinstance(e, ast.Call) and isinstance(e.func, ast.Name) and e.func.id in ("tuple", "list") and not e.args)
 
@@ -728,6 +780,16 @@ def run(repo: Repo, res: Result, rule: str, filter_cls: ClassInfo, pred: str) ->
                         und = und or f"`{norm(node, 70)}` matches the patterns against `{so[1]}`: cannot see whether that is the path's own string"
                         continue
                     bad = f"`{norm(node, 70)}` matches the patterns against {show_origin(so)} instead of {'the path string itself' if want_subject != 'str' else 'str(path)'}: the path is no longer matched as a whole"
+                    break
+                if po[0] == "attr" and _joined_alternation(repo, filter_cls, po[1]) is not None:
+                    j = _joined_alternation(repo, filter_cls, po[1])
+                    bad = (
+                        f"`{norm(node, 70)}` applies ONE regular expression, built by `{norm(j, 70)}` from all configured patterns, instead of each pattern on its own: "
+                        "inside one alternation the patterns share group numbers, group names and inline flags, so a pattern no longer means what it means alone "
+                        "(wrapping each alternative in `(?:...)` does not help) - e.g. with the patterns ('(a)b', r'(x)\\1') the path 'xx' is matched by the second pattern alone, "
+                        "but in '(a)b|(x)\\1' the back-reference \\1 points at the first pattern's group and never matches: 'xx' is not excluded; "
+                        "two patterns with the same named group, or `(?i)` in a later pattern, make re.compile fail"
+                    )
                     break
                 if po[0] == "attr":
                     und = und or f"`{norm(node, 70)}` applies one pre-built pattern {show_origin(po)} instead of the configured patterns one by one: whether it is their exact union is not decided"
